@@ -14,6 +14,8 @@
    key's group [kgf key] lies in the operator's range [start, start+size). *)
 From RV Require Import Base.Bytes Model.TimerStore Model.TimerRegistry.
 From RV Require Import Proofs.C10_Queue Proofs.C10_Spec Proofs.C10_History Proofs.C10_Registry Proofs.C10_SpecFacts.
+From RV Require Import Model.TimerStoreKV Proofs.C10_OverLsm.
+From RV Require Model.StateStore Model.StateStoreLsm Model.Lsm Proofs.C07_Refine Proofs.C03_OverLsm.
 From Coq Require Import Permutation.
 Open Scope N_scope.
 
@@ -48,6 +50,46 @@ Theorem timers_exactly_once_in_order :
     cache_inv (snd (run c ops (sys_new c []))).
 Proof. intros kgf start size cache srids ops H Hok. exact (refinement kgf start size cache srids H ops Hok). Qed.
 Print Assumptions timers_exactly_once_in_order.
+
+(* The same statement with the timer store running ON THE LSM MODEL of C07 instead of on the sorted-list specification of the
+   DKV: [run_kv] (Model/TimerStoreKV.v) is the transcription of timer_store.go / timer_registry.go over an abstract DKV
+   (C03's [StateStore.KV]: put / delete / prefix scan / restore, each returning the next DKV state); the instance is
+   [lsm_kv] (Proofs/C03_OverLsm.v): the LSM state machine of Model/Lsm.v (memtables, sealed memtables, flushes, levels,
+   compactions) with the invariant of C07, where before every put / delete and before AND in the middle of every prefix
+   scan the background steps that the schedule [sc] prescribes are run - for EVERY configuration [lcfg] that C07 accepts,
+   EVERY schedule [sc] of flush and compaction steps, and every function [reopen] that re-opens a captured database with
+   the contract of C08 (invariant, no read in flight, same contents).  [lsm_keys] are the keys of the LSM's abstract
+   contents [absm].  Not covered: read faults (the LSM instance never reports one) and the internals of [reopen]. *)
+Theorem timers_exactly_once_in_order_over_lsm :
+  forall (lcfg : Lsm.dbcfg) (Hcfg : C07_Refine.cfg_ok lcfg) (reopen : Lsm.db -> Lsm.db)
+         (Hreopen : forall st, C03_OverLsm.good st -> C03_OverLsm.good (reopen st) /\ C07_Refine.absm (reopen st) = C07_Refine.absm st)
+         (sc : StateStoreLsm.schedule)
+         (kgf : bytes -> N) (start size cache : N) (srids : list N) (ops : list op),
+    start + size <= 65536 ->
+    Forall (op_okc kgf start size) ops ->
+    let K := C03_OverLsm.lsm_kv lcfg Hcfg reopen Hreopen in
+    let c := {| cf_q := quirks_now; cf_kgf := kgf; cf_start := start; cf_size := size; cf_cache := cache; cf_srids := srids |} in
+    let res := run_kv K c ops (sys_new_kv K c (C03_OverLsm.lsm_init lcfg Hcfg sc)) in
+    let outs := fst res in
+    let sp := spec_run srids ops outs (spec_new srids []) in
+    Forall2 (fun out e =>
+               match snd e with
+               | None => Permutation out (fst e) /\ time_sorted out = true /\ NoDup out
+               | Some k => partial_ok k (fst e) out
+               end) outs (fst sp) /\
+    Permutation (map fst (C03_OverLsm.lsm_contents (snd (snd res)))) (map (enc kgf) (sp_pending (snd sp))) /\
+    cache_inv (fst (snd res), map fst (C03_OverLsm.lsm_contents (snd (snd res)))).
+Proof.
+  intros lcfg Hcfg reopen Hreopen sc kgf start size cache srids ops H Hok.
+  exact (timers_over_lsm lcfg Hcfg reopen Hreopen kgf start size cache srids ops sc H Hok).
+Qed.
+Print Assumptions timers_exactly_once_in_order_over_lsm.
+
+(* non-vacuity of the hypotheses: a re-opening function with the contract exists (C03_OverLsm.reopen_id_ok), and the LSM
+   configurations C07 accepts are not empty (Props/C07.v) *)
+Example reopen_contract_satisfiable :
+  forall st, C03_OverLsm.good st -> C03_OverLsm.good ((fun d : Lsm.db => d) st) /\ C07_Refine.absm ((fun d : Lsm.db => d) st) = C07_Refine.absm st.
+Proof. exact C03_OverLsm.reopen_id_ok. Qed.
 
 (* a consumer that stops part-way: what it was handed is not pending any more (unless the consumer itself registered it
    again, later than the watermark), everything else that was pending still is, nothing else appears *)
